@@ -1371,7 +1371,7 @@ fn main() {
     let thorough = run.args.thorough();
     let fixed = fixed_tables();
     let nfixed = fixed.len() as u64;
-    let mut n_cases: u64 = nfixed + if thorough { 10000 } else { 300 };
+    let mut n_cases: u64 = nfixed + if thorough { 10000 } else { 900 };
     if let Some(l) = run.args.get("limit").and_then(|s| s.parse::<u64>().ok()) {
         n_cases = n_cases.min(l);
     }
